@@ -26,6 +26,8 @@ pub const ELEMS: &[Elem] = &[
     Elem { text: "#13;,;", kind: 5, a: (3, 6), b: (0, 0), val: 0 },
     Elem { text: "(1,2)", kind: 6, a: (1, 4), b: (0, 0), val: 0 },
     Elem { text: "\"q\"\"q\"", kind: 4, a: (1, 5), b: (0, 0), val: 0 },
+    Elem { text: "42", kind: 1, a: (0, 2), b: (0, 0), val: 0 },
+    Elem { text: "#10", kind: 5, a: (3, 3), b: (0, 0), val: 0 },
 ];
 
 const H_OBS: u8 = 0;
@@ -225,8 +227,95 @@ pub fn check(tree: &'static Node<'static, RigDev>, c: &Case) -> Result<(), (Stri
     Ok(())
 }
 
+/// The same case with a handler that uses the typed API (`next_data::<u8>` for required,
+/// `next_optional_data::<u8>` for optional parameters). What each element converts to is taken
+/// from the library's own `u8::try_from` on the element lexed in isolation (the conversion itself
+/// is C07's business); this check is about which element is offered, and that an element that is
+/// present is never reported as absent.
+pub fn check_typed(tree: &'static Node<'static, RigDev>, c: &Case) -> Result<(), (String, String)> {
+    use scpi::parser::tokenizer::Tokenizer;
+    let (msg, _offs) = c.build();
+    let mut dev = RigDev::new();
+    dev.plan[H_OBS as usize] = Plan {
+        req: c.req,
+        opt: c.opt,
+        typed_u8: true,
+        resp: &[Item::I64(1)],
+        ..Plan::NOP
+    };
+    dev.plan[H_NB as usize] = Plan::pull(0, 4);
+    let mut out = Vec::new();
+    let r = guarded(|| run_vec(tree, &mut dev, &msg, &mut out)).map_err(|p| ("panic".to_string(), format!("`{}` panicked: {p}", esc(&msg))))?;
+    let m = esc(&msg);
+    let n = c.elems.len();
+    let conv = |i: usize| -> Result<i64, i16> {
+        let text = ELEMS[c.elems[i]].text.as_bytes();
+        match Tokenizer::new_params(text).next() {
+            Some(Ok(t)) => u8::try_from(t).map(|v| v as i64).map_err(|e| e.get_code()),
+            _ => engine_failure("C06 element does not lex in isolation"),
+        }
+    };
+    let mut exp: Vec<Pull> = vec![];
+    let mut handler_error: Option<i16> = None;
+    let mut consumed = 0usize;
+    for i in 0..c.req as usize {
+        if i < n {
+            consumed += 1;
+            match conv(i) {
+                Ok(v) => exp.push(Pull::Val(v)),
+                Err(e) => {
+                    exp.push(Pull::Err(e));
+                    handler_error = Some(e);
+                    break;
+                }
+            }
+        } else {
+            exp.push(Pull::Err(-109));
+            handler_error = Some(-109);
+            break;
+        }
+    }
+    if handler_error.is_none() {
+        for j in 0..c.opt as usize {
+            let i = c.req as usize + j;
+            if i < n {
+                consumed += 1;
+                match conv(i) {
+                    Ok(v) => exp.push(Pull::Val(v)),
+                    Err(e) => {
+                        exp.push(Pull::Err(e));
+                        handler_error = Some(e);
+                        break;
+                    }
+                }
+            } else {
+                exp.push(Pull::Absent);
+                break;
+            }
+        }
+    }
+    let got: Vec<Pull> = dev.pulls.iter().filter(|p| p.handler == H_OBS).map(|p| p.pull).collect();
+    if got != exp {
+        let key = if got.iter().zip(exp.iter()).any(|(g, e)| *g == Pull::Absent && *e != Pull::Absent) { "present-element-reported-absent" } else { "typed-pull-sequence" };
+        return Err((key.into(), format!("`{m}`: handler pulls {}+{} typed (u8) parameters and saw {:?}, expected {:?}", c.req, c.opt, got, exp)));
+    }
+    let want: Result<(), i16> = if let Some(e) = handler_error {
+        Err(e)
+    } else if n > consumed {
+        Err(-108)
+    } else {
+        Ok(())
+    };
+    let gotr = r.map_err(|e| e.get_code());
+    if gotr != want {
+        return Err(("typed-wrong-result".into(), format!("`{m}`: typed handler {}+{}: returned {:?}, expected {:?}", c.req, c.opt, gotr, want)));
+    }
+    Ok(())
+}
+
 pub fn enumerate(max_n: usize, all_elems: bool) -> Vec<Case> {
-    let ne = if all_elems { ELEMS.len() } else { 7 };
+    let _ = all_elems;
+    let ne = ELEMS.len();
     let mut tuples: Vec<Vec<usize>> = vec![vec![]];
     let mut cur: Vec<Vec<usize>> = vec![vec![]];
     for _ in 0..max_n {
@@ -276,7 +365,7 @@ pub fn enumerate(max_n: usize, all_elems: bool) -> Vec<Case> {
 pub fn run(ctx: &'static Ctx) -> i32 {
     let spec = tree();
     let shared = SharedTree::of(&spec);
-    let cases = enumerate(ctx.tier.pick(2, 4), ctx.tier == Tier::Thorough);
+    let cases = enumerate(ctx.tier.pick(3, 4), true);
     let total = cases.len() as u64;
     let accs = par_sweep(
         ctx,
@@ -296,6 +385,10 @@ pub fn run(ctx: &'static Ctx) -> i32 {
             if let Err((k, w)) = check(shared.node(), c) {
                 ctx.violation(i, &k, &w, c.to_json());
             }
+            acc.0 += 1;
+            if let Err((k, w)) = check_typed(shared.node(), c) {
+                ctx.violation(i, &k, &w, c.to_json());
+            }
         },
         |i| cases[i as usize].to_json(),
     );
@@ -309,7 +402,7 @@ pub fn run(ctx: &'static Ctx) -> i32 {
     let mut c = cov();
     c.insert("evaluations".into(), json!(runs));
     c.insert("distinct_nontrivial".into(), json!(nt));
-    c.insert("rule".into(), json!(format!("observed unit `OBS[?]` with every n-tuple (n = 0..{}) over {} data representatives (character, NR3, number+suffix, #H, strings containing `;` and `,` and doubled quotes, block containing `;,;`, expression) x handler pull patterns (r required then o optional, r in 0..3, r+o <= 4) x unit position (first / middle / last, neighbours carry their own distinguishable data) x follower (end of input, NL, blank, trailing `;`) x event/query; separator spelling and nested/flat tree rotate. Oracle: pulls return the first min(n, r+o) elements of that unit with identical type and byte range; the next required pull gives -109, the next optional one None; n > r+o fails with -108 and the next unit's handler does not run; neighbours never see the observed unit's data. Distinct non-trivial = cases whose arity does not match exactly", ctx.tier.pick(2, 4), if ctx.tier == Tier::Thorough { 9 } else { 7 })));
+    c.insert("rule".into(), json!(format!("observed unit `OBS[?]` with every n-tuple (n = 0..{}) over {} data representatives (character, NR3, number+suffix, #H, strings containing `;` and `,` and doubled quotes, block containing `;,;`, expression) x handler pull patterns (r required then o optional, r in 0..3, r+o <= 4) x unit position (first / middle / last, neighbours carry their own distinguishable data) x follower (end of input, NL, blank, trailing `;`) x event/query; separator spelling and nested/flat tree rotate. Oracle: pulls return the first min(n, r+o) elements of that unit with identical type and byte range; the next required pull gives -109, the next optional one None; n > r+o fails with -108 and the next unit's handler does not run; neighbours never see the observed unit's data. Each case is run twice: with a handler that pulls raw tokens and with one that uses the typed API (next_data::<u8> / next_optional_data::<u8>), where a present element must be offered (value or conversion error) and never reported absent. Distinct non-trivial = cases whose arity does not match exactly", ctx.tier.pick(3, 4), ELEMS.len())));
     c.insert("exhaustive".into(), json!(true));
     c.insert("samples".into(), json!([esc(&s0), esc(&s1)]));
     ctx.finish("exploration", c, vec!["token payload ranges are compared as byte offsets into the message (string payloads keep doubled quotes, as C04 fixes)".into()])
@@ -317,5 +410,6 @@ pub fn run(ctx: &'static Ctx) -> i32 {
 
 pub fn replay(case: &Value) -> Result<String, String> {
     let c = Case::from_json(case).unwrap_or_else(|| engine_failure("bad C06 replay"));
-    check(tree().build(), &c).map(|_| "conforms".to_string()).map_err(|(k, w)| format!("{k}: {w}"))
+    let t = tree().build();
+    check(t, &c).and_then(|_| check_typed(t, &c)).map(|_| "conforms".to_string()).map_err(|(k, w)| format!("{k}: {w}"))
 }
